@@ -51,10 +51,36 @@ for d in sorted(glob.glob("seeded/*/meta.json")):
         res.append("%s: %s" % (p, "DETECTED" if c["detected"] else "missed"))
         r = c.get("replay", {})
         if c["detected"]:
-            rep.append(r.get("key") or ("no-failing-input-found" if r.get("no_failing_input_found") else r.get("kind", "")))
+            x = r.get("key") or ("no-failing-input-found" if r.get("no_failing_input_found") else r.get("kind", ""))
+            t = c.get("tie", {})
+            if not r.get("key") and t.get("verdict") == "differs" and t.get("differences"):
+                x += "`; behaviour differs from the baseline at `" + t["differences"][0].split("/")[-1][:70]
+            elif not r.get("key") and t.get("verdict") == "not-covered" and t.get("uncovered"):
+                x += "`; changed statements not reached under comparison in `" + str(t["uncovered"][0]).split("/")[-1][:60]
+            rep.append(x)
     conf = m.get("confirmed", {})
     out.append("| %s | %s | %s | %s | %s |" % (os.path.basename(sd), notes.replace("|", "/"), "yes" if conf.get("suite_passes_with_patch") and conf.get("demo", {}).get("confirmed") else "NO",
                "; ".join(res), "; ".join("`%s`" % x for x in rep)))
+out.append("\n### F.5 Semantics-preserving refactorings (written by further sub-agents; `harmless/<name>/`) and what the checks say\n")
+out.append("| Refactoring | what it does (agent's notes, first line) | check → result | source-shape tie |")
+out.append("|---|---|---|---|")
+for d in sorted(glob.glob("harmless/*/meta.json")):
+    m = json.load(open(d))
+    sd = os.path.dirname(d)
+    notes = ""
+    np_ = os.path.join(sd, "notes.md")
+    if os.path.exists(np_):
+        for line in open(np_):
+            line = line.strip().lstrip("#").strip()
+            if len(line) > 25 and not line.lower().startswith(("notes", "refactoring", "c0", "c1", "c2")):
+                notes = line[:170]; break
+    c = m["check"]
+    t = c.get("tie", {})
+    tie = "identical" if t.get("identical") else (t.get("verdict") or "-")
+    if t.get("verdict") == "not-covered" and t.get("uncovered"):
+        tie += " (`%s`)" % str(t["uncovered"][0]).split("/")[-1][:60]
+    res = "passes" if c["rc"] == 0 else ("reported, `no-failing-input-found`" if c.get("replay", {}).get("no_failing_input_found") else "reported")
+    out.append("| %s | %s | %s: %s | %s |" % (os.path.basename(sd), notes.replace("|", "/"), m["property"], res, tie))
 gen = "\n".join(out) + "\n"
 s = open("DESIGN.md").read()
 b, e = "<!-- BEGIN GENERATED -->\n", "<!-- END GENERATED -->\n"
